@@ -187,7 +187,7 @@ def _process_func(u, header_line, lines, mutate=None):
         elif ln.startswith('post:'):
             post.append(ln[5:].strip())
         elif ln.startswith('mutant:'):
-            u.mutants.append((qual,) + _parse_rule(ln[7:]))
+            u.mutants.append((qual + '\x00' + (match or ''),) + _parse_rule(ln[7:]))
         elif ln == 'contract:':
             while lines[j].strip() != 'end':
                 contract.append(lines[j].rstrip())
@@ -209,7 +209,7 @@ def _process_func(u, header_line, lines, mutate=None):
     body = f.body
     if mutate:
         for (mq, pat, rep) in mutate:
-            if mq == qual:
+            if mq == qual + '\x00' + (match or ''):
                 body, n = re.subn(pat, rep, body, count=1)
                 if n == 0:
                     raise cxx.ExtractError('mutant pattern did not match in %s: %s' % (qual, pat))
